@@ -16,6 +16,9 @@ def run(tier):
     exh = handles.run_handles(out, tier)
     import core_driver
     core_driver.run_isolation(out, tier)
+    # the IOAPI wrappers (they rewrite metadata: of the result only)
+    import ioapi_driver
+    ioapi_driver.run_ioapi_isolation(out, tier)
     # the calls of the repository's own tests: receivers and arguments unchanged
     suite.run_suite(out, tier, {'iso'}, '-', recorded=rec_wait())
     out.exhaustive = False
